@@ -1,9 +1,12 @@
 """Spec cases of the families the Lean models cover end to end -> RTV/Gen/SpecCases.lean:
 Specs/Sequence/*/IpAddressModel*.json, GUIDModel*.json, HashtagModel*.json, MentionModel*.json, EmailModel*.json,
 URLModel*.json, Specs/Choice/English/BooleanModel*.json —
-Python-supported cases only (as harness/lib/specs.iter_cases() marks them).  Each case is emitted with exactly the
-fields the repository's runner compares (Python/tests/test_runner_sequence.py, test_runner_choice.py): number of
-results, TypeName, Text, Resolution.value, and Resolution.score when the spec states one (sequence runner only)."""
+Python-supported cases only (as harness/lib/specs.iter_cases() marks them).  Each case is emitted with EVERY field the
+Specs state for its results: TypeName, Text, Start / End where given, and every key of Resolution (`value`, `type`,
+`score` — str, bool or float, as text).  That is what property C19 demands ("text, type, offsets where given, and
+resolution fields"); the repository's own runner (Python/tests/test_runner_sequence.py, test_runner_choice.py)
+compares less: count, TypeName, Text, Resolution.value, and Resolution.score for the sequence models only — never Start /
+End, never Resolution.type, never the boolean score."""
 import os
 
 from lib import specs
@@ -39,32 +42,46 @@ def families():
     return fam
 
 
+def canon(v):
+    """text of a resolution value, the same on the Specs side, the implementation side and in the model:
+    `str` as it is, `bool` as True/False, `float`/`int` as its repr, None as None"""
+    if isinstance(v, str):
+        return v
+    return repr(v)
+
+
+def expected_fields(r):
+    """(TypeName, Text, Start|None, End|None, [(key, canon(value))]) — every field a Specs result states"""
+    known = {'TypeName', 'Text', 'Start', 'End', 'Resolution'}
+    extra = set(r) - known
+    if extra:
+        raise ValueError('spec result with fields this translator does not know: %r' % sorted(extra))
+    return (r['TypeName'], r['Text'], r.get('Start'), r.get('End'),
+            [(k, canon(v)) for k, v in (r.get('Resolution') or {}).items()])
+
+
+def lean_exp(r):
+    t, x, a, b, res = expected_fields(r)
+    return '(%s, %s, %s, %s, [%s])' % (L(t), L(x), 'none' if a is None else 'some %d' % a,
+                                       'none' if b is None else 'some (%d : Int)' % b,
+                                       ', '.join('(%s, %s)' % (L(k), L(v)) for k, v in res))
+
+
+KEYS = ('ipEn', 'ipZh', 'guid', 'bool', 'hashtag', 'mention', 'email', 'urlEn', 'urlZh')
+
+
 def generate():
     fam = families()
-    text = HEADER % ('speccases', 'Specs/Sequence/*/IpAddressModel*.json, GUIDModel*.json, Specs/Choice/English/BooleanModel*.json')
+    text = HEADER % ('speccases', 'Specs/Sequence/*/IpAddressModel*.json, GUIDModel*.json, HashtagModel / MentionModel / '
+                     'EmailModel / URLModel*.json, Specs/Choice/English/BooleanModel*.json')
     text += 'set_option maxRecDepth 1000000\nnamespace RTV.Gen\n\n'
-    for key in ('ipEn', 'ipZh', 'hashtag', 'mention', 'email', 'urlEn', 'urlZh'):
+    for key in KEYS:
         rows = []
         for f, i, inp, res in fam[key]:
-            exp = ', '.join('(%s, %s, %s)' % (L(r['TypeName']), L(r['Text']), L(str(r['Resolution']['value']))) for r in res)
-            rows.append('  -- %s #%d\n  (%s, [%s])' % (f, i, L(inp), exp))
-        text += '/-- (input, expected [(TypeName, Text, Resolution.value)]) -/\n'
-        text += 'def specCases_%s : List (List Nat × List (List Nat × List Nat × List Nat)) := [\n%s]\n\n' % (key, ',\n'.join(rows))
-    rows = []
-    for f, i, inp, res in fam['guid']:
-        exp = ', '.join('(%s, %s, %s, %s)' % (
-            L(r['TypeName']), L(r['Text']), L(str(r['Resolution']['value'])),
-            ('some ' + L(str(r['Resolution']['score']))) if 'score' in r['Resolution'] else 'none') for r in res)
-        rows.append('  -- %s #%d\n  (%s, [%s])' % (f, i, L(inp), exp))
-    text += '/-- (input, expected [(TypeName, Text, Resolution.value, Resolution.score if stated)]) -/\n'
-    text += ('def specCases_guid : List (List Nat × List (List Nat × List Nat × List Nat × Option (List Nat))) := [\n%s]\n\n'
-             % ',\n'.join(rows))
-    rows = []
-    for f, i, inp, res in fam['bool']:
-        exp = ', '.join('(%s, %s, %s)' % (L(r['TypeName']), L(r['Text']),
-                                          'true' if r['Resolution']['value'] is True else 'false') for r in res)
-        rows.append('  -- %s #%d\n  (%s, [%s])' % (f, i, L(inp), exp))
-    text += '/-- (input, expected [(TypeName, Text, Resolution.value)]) -/\n'
-    text += 'def specCases_bool : List (List Nat × List (List Nat × List Nat × Bool)) := [\n%s]\n\n' % ',\n'.join(rows)
+            rows.append('  -- %s #%d\n  (%s, [%s])' % (f, i, L(inp), ', '.join(lean_exp(r) for r in res)))
+        text += ('/-- (input, expected [(TypeName, Text, Start if stated, End if stated, Resolution as (key, text of the '
+                 'value) pairs)]) -/\n')
+        text += ('def specCases_%s : List (List Nat × List (List Nat × List Nat × Option Nat × Option Int × '
+                 'List (List Nat × List Nat))) := [\n%s]\n\n' % (key, ',\n'.join(rows)))
     text += 'end RTV.Gen\n'
     return [(os.path.join(GEN, 'SpecCases.lean'), text)]
